@@ -9,9 +9,12 @@ res=$(tools/try_seed_iso.sh $pid $n $chk 2>&1)
 rp=$(echo "$res" | grep VIOLATION | grep -v no-failing | sed 's/.*replay=\([^ ]*\).*/\1/' | head -1)
 [ -n "$rp" ] && [ -f "$rp" ] || { echo "$id: no concrete violation from $chk"; exit 1; }
 python3 - "$rp" "$out" "$id" <<'PY'
-import json,sys
+import json,sys,os
+sys.path.insert(0, os.getcwd())
+from vlib import core
 r=json.load(open(sys.argv[1]))
-json.dump({"case": r["case"], "note": "first failing case with seeded change %s applied; must pass on the unchanged tree" % sys.argv[3]}, open(sys.argv[2],"w"))
+# paths of the scratch copy the case was found in -> ${REPO} / ${VERIF} (core.load_case_file maps them back)
+json.dump({"case": core.portable_paths(r["case"]), "note": "first failing case with seeded change %s applied; must pass on the unchanged tree" % sys.argv[3]}, open(sys.argv[2],"w"))
 PY
 ./check $chk --replay $out 2>&1 | grep -q VIOLATION && { echo "$id: corpus case alarms on the unchanged tree, removed"; rm -f $out; exit 1; }
 echo "$id -> $out"
